@@ -236,6 +236,54 @@ VARIANTS = [
     {"name": "R4 STRING override has an unescaped early return", "file": LLSD, "expect": "C12.R4",
      "old": "    def STRING(self, v):\n",
      "new": "    def STRING(self, v):\n        if not v:\n            return super().STRING(v)\n"},
+    # ------------------------------------------------------------------ round 3
+    {"name": "R5 header located anywhere with find()", "file": LLSD, "expect": "C12.R5",
+     "old": "    if any(data.startswith(x) for x in _BINARY_HEADERS):\n        data = data.split(b'\\n', 1)[1]\n    return HippoLLSDBinaryParser",
+     "new": "    for hdr in _BINARY_HEADERS:\n        at = data.find(hdr + b'\\n')\n        if at >= 0:\n"
+            "            data = data[at + len(hdr) + 1:]\n            break\n    return HippoLLSDBinaryParser"},
+    {"name": "R5 first line dropped whenever it looks like a processing instruction anywhere", "file": LLSD, "expect": "C12.R5",
+     "old": "    if any(data.startswith(x) for x in _BINARY_HEADERS):\n        data = data.split(b'\\n', 1)[1]\n    return HippoLLSDBinaryParser",
+     "new": "    if any(x in data for x in _BINARY_HEADERS):\n        data = data.split(b'\\n', 1)[1]\n    return HippoLLSDBinaryParser"},
+    {"name": "P5 header test through a module-level predicate", "expect": "silent",
+     "edits": [{"file": LLSD, "old": "def parse_binary(data: bytes):\n    if any(data.startswith(x) for x in _BINARY_HEADERS):\n",
+                "new": "def _starts_with_header(buf) -> bool:\n    return any(buf.startswith(h) for h in _BINARY_HEADERS)\n\n\n"
+                       "def parse_binary(data: bytes):\n    if _starts_with_header(data):\n"}]},
+    {"name": "P5 header stripped by slicing after a per-header startswith", "file": LLSD, "expect": "silent",
+     "old": "    if any(data.startswith(x) for x in _BINARY_HEADERS):\n        data = data.split(b'\\n', 1)[1]\n    return HippoLLSDBinaryParser",
+     "new": "    for hdr in _BINARY_HEADERS:\n        if data.startswith(hdr):\n"
+            "            data = data[data.index(b'\\n') + 1:]\n            break\n    return HippoLLSDBinaryParser"},
+    {"name": "P2 dispatch overrides installed from a table of (token, handler) rows", "expect": "silent",
+     "edits": [{"file": LLSD,
+                "old": "        self._dispatch[ord('u')] = lambda: UUID(bytes=self._getc(16))\n        self._dispatch[ord('d')] = self._parse_date\n",
+                "new": "        for tok, fn in ((b'u', self._read_uuid), (b'd', self._parse_date)):\n            self._dispatch[ord(tok)] = fn\n\n"
+                       "    def _read_uuid(self):\n        return UUID(bytes=self._getc(16))\n"}]},
+    {"name": "R2 table-driven override whose UUID method consumes 15 bytes", "expect": "C12.R2",
+     "edits": [{"file": LLSD,
+                "old": "        self._dispatch[ord('u')] = lambda: UUID(bytes=self._getc(16))\n        self._dispatch[ord('d')] = self._parse_date\n",
+                "new": "        for tok, fn in ((b'u', self._read_uuid), (b'd', self._parse_date)):\n            self._dispatch[ord(tok)] = fn\n\n"
+                       "    def _read_uuid(self):\n        return UUID(bytes=self._getc(15))\n"}]},
+    {"name": "P1 LLSD table assembled from two module-level dicts", "expect": "silent",
+     "edits": [{"file": PACK, "old": "@_unpack_specs\nclass LLSDDataPacker(TemplateDataPacker):",
+                "new": "_LLSD_INT_ROWS = {\n    MsgType.MVT_U32: _make_struct_spec('!I'),\n    MsgType.MVT_U64: _make_struct_spec('!Q'),\n"
+                       "    MsgType.MVT_S64: _make_struct_spec('!q'),\n}\n\n\n@_unpack_specs\nclass LLSDDataPacker(TemplateDataPacker):"},
+               {"file": PACK, "old": "        MsgType.MVT_U32: _make_struct_spec('!I'),\n        MsgType.MVT_U64: _make_struct_spec('!Q'),\n"
+                                     "        MsgType.MVT_S64: _make_struct_spec('!q'),\n        # These are arrays",
+                "new": "        **_LLSD_INT_ROWS,\n        # These are arrays"}]},
+    {"name": "R1 merged module-level rows carry U64 as signed", "expect": "C12.R1",
+     "edits": [{"file": PACK, "old": "@_unpack_specs\nclass LLSDDataPacker(TemplateDataPacker):",
+                "new": "_LLSD_INT_ROWS = {\n    MsgType.MVT_U32: _make_struct_spec('!I'),\n    MsgType.MVT_U64: _make_struct_spec('!q'),\n"
+                       "    MsgType.MVT_S64: _make_struct_spec('!q'),\n}\n\n\n@_unpack_specs\nclass LLSDDataPacker(TemplateDataPacker):"},
+               {"file": PACK, "old": "        MsgType.MVT_U32: _make_struct_spec('!I'),\n        MsgType.MVT_U64: _make_struct_spec('!Q'),\n"
+                                     "        MsgType.MVT_S64: _make_struct_spec('!q'),\n        # These are arrays",
+                "new": "        **_LLSD_INT_ROWS,\n        # These are arrays"}]},
+    {"name": "R1 module-level packer bound with partial calls .data() on the tuple (D10 shape)", "expect": "C12.R1",
+     "edits": [{"file": PACK, "old": "import socket\n", "new": "import functools\nimport socket\n"},
+               {"file": PACK, "old": "def _make_llsd_tuplecoord_spec(",
+                "new": "def _llsd_leading(count, x):\n    if isinstance(x, TupleCoord):\n        x = x.data()\n"
+                       "    return list(x.data(count))\n\n\ndef _make_llsd_tuplecoord_spec("},
+               {"file": PACK, "old": "    return lambda x: typ(*x), _packer\n",
+                "new": "    if needed_elems is not None:\n        _packer = functools.partial(_llsd_leading, needed_elems)\n"
+                       "    return lambda x: typ(*x), _packer\n"}]},
     # ------------------------------------------------------------------ documented limits
     {"name": "X quaternion packed with two components (count still accepted by the constructor)", "file": PACK, "expect": "miss",
      "old": "MsgType.MVT_LLQuaternion: _make_llsd_tuplecoord_spec(Quaternion, needed_elems=3)",
